@@ -31,7 +31,7 @@ def gridToJson (g : List (List Str)) : Json := Json.arr (g.map fun r => Json.arr
 
 def instToJson (i : Inst) : Json :=
   Json.mkObj [("id", jstr i.name), ("src", optJ i.src), ("kind", jstr i.kind),
-    ("items", if i.kind = S "choice" then Json.arr (i.items.map pairsToJson).toArray else Json.null)]
+    ("items", if i.kind = c!"choice" then Json.arr (i.items.map pairsToJson).toArray else Json.null)]
 
 def selToJson (s : SelObs) : Json :=
   Json.mkObj [("ref", jstr s.ref), ("tag", jstr s.tag),
